@@ -331,9 +331,15 @@ fn create_mangled_for_file(
 }
 
 fn add_part(mangled: &mut String, part: &MangledPart) {
-    if part.text.starts_with(|ch: char| ch.is_ascii_digit()) {
+    let escape_code = part.kind.to_code().to_ascii_lowercase();
+    if part
+        .text
+        .starts_with(|ch: char| ch.is_ascii_digit() || ch == escape_code)
+    {
         // if the part text starts with a number,
         // then prepend a lowercase version of the code
+        // (texts that already start with that lowercase code are escaped too,
+        // otherwise "1" and "f1" would both become "2f1")
         mangled.push_str(&(part.text.len() + 1).to_string());
         mangled.push(part.kind.to_code().to_ascii_lowercase());
         mangled.push_str(&part.text);
